@@ -212,6 +212,8 @@ func (s *Sim) membershipOp() {
 		weights = []int{1, 8, 1, 1, 1, 0, 0}
 	case 2: // mostly witnesses
 		weights = []int{1, 1, 8, 1, 1, 0, 0}
+	case 3: // mostly removals
+		weights = []int{1, 0, 0, 8, 0, 0, 0}
 	}
 	op := src.Weighted(weights)
 	switch op {
